@@ -46,6 +46,8 @@ func runC07(c *Ctx) {
 	c.Rule("O7.4", "blank lines are skipped: the len(TrimSpace(line)) == 0 edge neither counts an entry nor returns an error")
 	c.Rule("O7.6", "entries are decoded into fresh storage: the target handed to json Decode/Unmarshal for an ammo entry is a local variable allocated (zero) for this entry - not a decoder field or other storage that survives from one entry to the next (encoding/json merges into existing maps and keeps absent fields)")
 	c.Rule("O7.5", "entry fields reach the ammo: the arguments of Ammo.Setup / RawAmmo.Setup derive from the parsed entry (method, URL, body, tag) and BuildRequest builds from exactly those fields")
+	c.Rule("O7.7", "an entry's bytes are its own: a slice that aliases the internal buffer of a reader - the result of bufio.Reader.Peek / ReadSlice / ReadLine, bufio.Scanner.Bytes, or Bytes / Next of a bytes.Buffer that outlives the call - is only looked at or copied (string conversion, append/copy source, json decoding, formatting, comparison) in the ammo providers; it is never returned, stored or sent on, because the next read overwrites it while the entry is still in use")
+	c07Borrowed(c)
 	P := c.P
 	impls := decoderImpls(c, "O7.1")
 	c.Floor("O7.1", "Decoder implementations", len(impls), 4)
@@ -816,4 +818,265 @@ func c07FieldMutated(P *Prog, pkg *ssa.Package, fv *types.Var) string {
 		})
 	}
 	return why
+}
+
+var c07BorrowSpecs = []Spec{
+	{"bufio", "Reader", "Peek"}, {"bufio", "Reader", "ReadSlice"}, {"bufio", "Reader", "ReadLine"},
+	{"bufio", "Scanner", "Bytes"},
+	{"bytes", "Buffer", "Bytes"}, {"bytes", "Buffer", "Next"},
+}
+
+// packages whose functions look at or copy a byte slice they are given and do not keep it
+var c07CopyingPkgs = map[string]bool{
+	"bytes": true, "strings": true, "strconv": true, "unicode/utf8": true, "fmt": true, "errors": true,
+	"encoding/json": true, "github.com/json-iterator/go": true, "github.com/pkg/errors": true, "golang.org/x/xerrors": true,
+	"encoding/hex": true, "encoding/base64": true, "hash/crc32": true, "go.uber.org/zap": true,
+}
+
+// c07Borrowed decides O7.7 over the ammo provider packages.
+func c07Borrowed(c *Ctx) {
+	P := c.P
+	n := 0
+	for _, pk := range P.Root {
+		rel := strings.TrimPrefix(strings.TrimPrefix(pk.PkgPath, Mod), "/")
+		if !IsProdPkg(pk.PkgPath) || !(strings.HasPrefix(rel, "components/providers") || rel == "core/provider" || rel == "core/datasource") {
+			continue
+		}
+		sp := P.SSA.Package(pk.Types)
+		if sp == nil {
+			continue
+		}
+		for _, fn := range PkgFuncs(sp) {
+			if !IsProdFile(P.File(fn.Pos())) {
+				continue
+			}
+			EachInstr(fn, func(in ssa.Instruction) {
+				cl, ok := in.(*ssa.Call)
+				if !ok || cl.Call.IsInvoke() || !MatchCC(&cl.Call, c07BorrowSpecs...) {
+					return
+				}
+				// a bytes.Buffer made in this function and not kept: its bytes are nobody else's
+				if f := CalleeObj(&cl.Call); f != nil && RecvTypeName(f) == "Buffer" {
+					if a, isA := cl.Call.Args[0].(*ssa.Alloc); isA && !allocEscapes(a) {
+						return
+					}
+				}
+				n++
+				where := borrowEscape(P, cl, map[ssa.Value]bool{}, 0)
+				c.Check(where == "", "O7.7", fk(fn)+":"+CalleeObj(&cl.Call).Name()+"-result-not-kept", cl.Pos(),
+					"the result of "+CalleeObj(&cl.Call).Name()+" aliases the reader's buffer (overwritten by the next read) and "+where)
+			})
+		}
+	}
+	c.Floor("O7.7", "borrowed-buffer reads in the provider packages", n, 1)
+}
+
+// allocEscapes: the address of the local is stored, returned, captured or sent somewhere (calls with it as receiver or
+// argument of a method of its own type do not count).
+func allocEscapes(a *ssa.Alloc) bool {
+	if a.Referrers() == nil {
+		return true
+	}
+	for _, r := range *a.Referrers() {
+		switch x := r.(type) {
+		case *ssa.DebugRef, *ssa.UnOp, *ssa.FieldAddr:
+		case *ssa.Store:
+			if x.Val == ssa.Value(a) {
+				return true
+			}
+		case ssa.CallInstruction:
+			if _, isGo := x.(*ssa.Go); isGo {
+				return true
+			}
+		case *ssa.MakeInterface:
+			// handed to a function as io.Writer / io.Reader for the duration of the call
+			if x.Referrers() != nil {
+				for _, r2 := range *x.Referrers() {
+					if _, isCall := r2.(*ssa.Call); !isCall {
+						if _, isD := r2.(*ssa.DebugRef); !isD {
+							return true
+						}
+					}
+				}
+			}
+		default:
+			return true
+		}
+	}
+	return false
+}
+
+// borrowEscape follows a borrowed slice; returns "" when it is only read or copied, otherwise what keeps it.
+func borrowEscape(P *Prog, v ssa.Value, seen map[ssa.Value]bool, depth int) string {
+	if seen[v] || depth > 6 {
+		return ""
+	}
+	seen[v] = true
+	refs := v.Referrers()
+	if refs == nil {
+		return ""
+	}
+	for _, r := range *refs {
+		switch x := r.(type) {
+		case *ssa.DebugRef, *ssa.Index, *ssa.Lookup, *ssa.Range, *ssa.BinOp, *ssa.If:
+		case *ssa.Extract:
+			if x.Index == 0 {
+				if w := borrowEscape(P, x, seen, depth); w != "" {
+					return w
+				}
+			}
+		case *ssa.Slice, *ssa.Phi, *ssa.ChangeType:
+			if w := borrowEscape(P, x.(ssa.Value), seen, depth); w != "" {
+				return w
+			}
+		case *ssa.Convert:
+			if b, ok := x.Type().Underlying().(*types.Basic); ok && b.Info()&types.IsString != 0 {
+				continue // string(b) copies
+			}
+			if w := borrowEscape(P, x, seen, depth); w != "" {
+				return w
+			}
+		case *ssa.IndexAddr:
+			// &b[i]: reading an element is fine; the address itself must not travel
+			if x.Referrers() != nil {
+				for _, r2 := range *x.Referrers() {
+					switch r2.(type) {
+					case *ssa.UnOp, *ssa.DebugRef, *ssa.Store:
+					default:
+						return "the address of one of its elements is passed on at " + P.Pos(r2.Pos())
+					}
+				}
+			}
+		case *ssa.MakeInterface:
+			if w := borrowEscape(P, x, seen, depth); w != "" {
+				return w
+			}
+		case *ssa.Store:
+			if x.Val != v {
+				continue
+			}
+			switch a := x.Addr.(type) {
+			case *ssa.Alloc:
+				// a local variable: follow its loads
+				if a.Referrers() != nil {
+					for _, r2 := range *a.Referrers() {
+						if u, ok := r2.(*ssa.UnOp); ok {
+							if w := borrowEscape(P, u, seen, depth); w != "" {
+								return w
+							}
+						}
+						if mc, ok := r2.(*ssa.MakeClosure); ok {
+							return "is captured by a closure at " + P.Pos(mc.Pos())
+						}
+					}
+				}
+			case *ssa.IndexAddr:
+				// the argument array of a variadic call
+				if arr, ok := a.X.(*ssa.Alloc); ok && arr.Referrers() != nil {
+					for _, r2 := range *arr.Referrers() {
+						if sl, ok := r2.(*ssa.Slice); ok {
+							if w := borrowEscape(P, sl, seen, depth); w != "" {
+								return w
+							}
+						}
+					}
+					continue
+				}
+				return "is stored into an element at " + P.Pos(x.Pos())
+			default:
+				return "is stored at " + P.Pos(x.Pos())
+			}
+		case *ssa.Return:
+			fn := x.Parent()
+			sites := PkgCallers(fn)
+			if len(sites) == 0 || depth > 3 {
+				return "is returned from " + fk(fn) + " at " + P.Pos(x.Pos())
+			}
+			idx := -1
+			for i, rv := range x.Results {
+				if rv == v {
+					idx = i
+				}
+			}
+			for _, s := range sites {
+				sv, ok := s.(ssa.Value)
+				if !ok {
+					return "is returned from " + fk(fn) + " (deferred / started call)"
+				}
+				if len(x.Results) == 1 {
+					if w := borrowEscape(P, sv, seen, depth+1); w != "" {
+						return w
+					}
+					continue
+				}
+				if sv.Referrers() != nil {
+					for _, r2 := range *sv.Referrers() {
+						if ex, ok := r2.(*ssa.Extract); ok && ex.Index == idx {
+							if w := borrowEscape(P, ex, seen, depth+1); w != "" {
+								return w
+							}
+						}
+					}
+				}
+			}
+		case *ssa.Send:
+			if x.X == v {
+				return "is sent on a channel at " + P.Pos(x.Pos())
+			}
+		case *ssa.MapUpdate:
+			if x.Value == v || x.Key == v {
+				return "is put into a map at " + P.Pos(x.Pos())
+			}
+		case *ssa.MakeClosure:
+			return "is captured by a closure at " + P.Pos(x.Pos())
+		case ssa.CallInstruction:
+			cc := x.Common()
+			if b, ok := cc.Value.(*ssa.Builtin); ok {
+				switch b.Name() {
+				case "len", "cap", "copy", "print", "println":
+					continue
+				case "append":
+					if len(cc.Args) > 0 && cc.Args[0] == v {
+						if w := borrowEscape(P, x.(ssa.Value), seen, depth); w != "" {
+							return w
+						}
+					}
+					continue // append(dst, b...) copies the bytes of b
+				}
+				continue
+			}
+			if _, isGo := x.(*ssa.Go); isGo {
+				return "is handed to a goroutine at " + P.Pos(x.Pos())
+			}
+			if f := CalleeObj(cc); f != nil && f.Pkg() != nil && c07CopyingPkgs[f.Pkg().Path()] {
+				continue
+			}
+			sc := cc.StaticCallee()
+			if sc != nil && len(sc.Blocks) > 0 && IsPandora(PkgOf(sc)) && depth < 3 {
+				escaped := ""
+				for i, a := range cc.Args {
+					if a == v && i < len(sc.Params) {
+						if w := borrowEscape(P, sc.Params[i], seen, depth+1); w != "" {
+							escaped = w
+						}
+					}
+				}
+				if escaped != "" {
+					return escaped
+				}
+				continue
+			}
+			if cc.IsInvoke() {
+				return "is passed to " + cc.Method.Name() + " of an interface value at " + P.Pos(x.Pos()) + " (what the implementation keeps is not known)"
+			}
+			name := "a function value"
+			if f := CalleeObj(cc); f != nil {
+				name = f.FullName()
+			}
+			return "is passed to " + name + " at " + P.Pos(x.Pos()) + " (not known to copy)"
+		default:
+			return fmt.Sprintf("is used by %T at %s", r, P.Pos(r.Pos()))
+		}
+	}
+	return ""
 }
